@@ -9,7 +9,15 @@ Mode B: TLC enumerates every class sequence up to a bound (+ seeded simulation o
 Divergences are attributed to an open finding of known_findings.json only if the real result equals the
 prediction of the finding's deviation model (the as-implemented automata of the spec + the arithmetic below).
 The deviation models of REPAIRED defects (FIXED_OF) are still evaluated, on top of the as-implemented automaton:
-a divergence that equals one of them (and no as-implemented prediction) is a VIOLATION naming the lost fix."""
+a divergence that equals one of them (and no as-implemented prediction) is a VIOLATION naming the lost fix.
+Schema layer (specs/LineSchema.tla, EXTENDS LineProtocol): a decoded line meets the schema its measurement already has.
+TLC checks NoForeignValue, ValidFieldsKept, LastWriteWins, SchemaFromKept, ReplyFaithful, SchemaMonotone, ... exhaustively
+and exports SEQUENCES of write requests for one measurement (first line fixes types; later lines mix same-type, new and
+conflicting fields, names used as tag and as field, lines in a later shard group, the same (series, time) again, batches);
+each sequence is concretised (own measurement, key / tag / value texts from the seed), posted request by request to the
+same ts-server and read back: every reply (204 | 400 partial write, dropped=N) and every stored cell must equal the
+specification; the as-implemented state of the spec (open findings F-C06-9, F-C06-10) and F-C06-1 are the only
+attributions."""
 import concurrent.futures as cf
 import json, math, os, random, re, struct, sys, threading, time
 import vlib, vserver
@@ -20,6 +28,10 @@ ONE = {"C": ",", "S": " ", "E": "=", "Q": '"', "B": "\\"}
 MULT = {"": 1, "ns": 1, "n": 1, "u": 10**3, "us": 10**3, "ms": 10**6, "s": 10**9, "m": 60 * 10**9, "h": 3600 * 10**9}
 WEEK = 7 * 86400 * 10**9
 I64MAX, I64MIN = 2**63 - 1, -2**63
+DAY = 86400 * 10**9
+# shard groups last a week and start on Mondays (time.Truncate counts from the year 1): 1969-12-29, 1970-01-05, ...
+S_EARLY = (1, 3 * DAY)               # timestamps of the schema cases: inside the first shard group
+S_LATE = (5 * DAY, 6 * DAY)          # ... and inside the next one (SLateTimes of LineSchema.tla)
 FINDING_OF = {  # as-implemented deviation of the spec (constant ImplDev of the cfg files) -> OPEN finding id
     "int_via_float64": "F-C06-1", "batch_last_line_decides": "F-C06-6",
     "empty_tag_skipped": "F-C06-7", "tagval_equals_literal": "F-C06-7", "quote_scan_key": "F-C06-8",
@@ -28,6 +40,12 @@ FIXED_OF = {    # deviation model of a repaired defect (constant FixedDev of the
     "float_fastfloat": ("F-C06-2", "c8aa879"), "ts_mult_wraps": ("F-C06-3", "11669c8"),
     "fsuffix_unvalidated": ("F-C06-4", "10608b5"), "quote_scan": ("F-C06-5", "3a54b7c"),
 }
+# schema layer (LineSchema.tla): as-implemented deviations of the prediction state (constant SImplDev) -> OPEN finding id,
+# and deviation models of repaired defects -> (finding id, fix commit)
+S_FINDING_OF = {"tag_shadowed_by_field": "F-C06-9", "stale_endtime_conflict_drops_line": "F-C06-10"}
+S_FIXED_OF = {}
+S_MARKER = "partial_pool_applied"
+TYPE_NAME = {"int": "integer", "float": "float", "string": "string", "bool": "boolean"}
 # prediction automata exported by TLC: {x} for x in IMPL_DEVS, IMPL_DEVS itself (the code as it is), and
 # IMPL_DEVS + {y} for y in FIXED_OF (the code as it would be again without the fix of y).
 # batch_last_line_decides is the batch-level member of the as-implemented set (judge_batch, BatchStatus of the spec)
@@ -427,10 +445,17 @@ def qident(name):
     return '"' + name.replace("\\", "\\\\").replace('"', '\\"').replace("\n", "\\n") + '"'
 
 
+class ServerDied(vlib.Infra):
+    """the ts-server process is gone. replay_cases() posts every request (sequence) that was in flight to a fresh server:
+    a request that kills that one too is a reproduced VIOLATION (a write must never take the server down), otherwise the
+    death stays an infrastructure failure (exit 2)"""
+
+
 class Session:
     NLANES = 3            # extra databases for measurement names that carry no case id (made of " = only)
 
     def __init__(self, threads=48):
+        self.inflight, self.lock, self.died = {}, threading.Lock(), False
         self.srv = vserver.Server(name="c06", start=False)
         try:
             self.srv.start(wait=180)
@@ -445,26 +470,39 @@ class Session:
                 raise vlib.Infra("create database failed: %r" % (r,))
         # create the shard groups the cases fall into (meta cache lag gives 500 'shard group not found' at first)
         for db in self.dbs:
-            for ln, pr in (("c06warm v=1i 1000", None), ("c06warm v=1i", None), ("c06warm v=1i 9223372036854775806", None)):
+            for ln, pr in (("c06warm v=1i 1000", None), ("c06warm v=1i", None), ("c06warm v=1i 9223372036854775806", None),
+                           ("c06warm v=1i %d" % S_LATE[0], None)):
                 self.post_retry(db, ln, pr, tries=40)
 
     def stop(self):
         self.srv.stop()
 
-    def post_retry(self, db, body, prec, tries=8):
+    def _dead(self, what):
+        self.died = True
+        return ServerDied("ts-server died during %s:\n%s" % (what, self.srv.tail_log()))
+
+    def post_retry(self, db, body, prec, tries=8, repro=None):
+        """repro: the requests [(db, body, precision)] that lead to this one, itself included (default: itself)"""
+        if self.died:
+            raise ServerDied("ts-server died earlier")
+        token = object()
+        with self.lock:
+            self.inflight[token] = list(repro) if repro else [(db, body, prec)]
         for k in range(tries):
             t0 = time.time_ns()
             try:
                 st, txt = self.srv.write(db, body.encode("utf-8"), precision=prec or None)
             except Exception as ex:            # noqa
                 if not self.srv.alive():
-                    raise vlib.Infra("ts-server died during a write:\n" + self.srv.tail_log())
+                    raise self._dead("a write")          # (the request stays registered as in flight)
                 st, txt = 599, "client error: %r" % (ex,)
             t1 = time.time_ns()
             if st >= 500 and ("shard group not found" in txt or st == 599 or "timeout" in txt):
                 time.sleep(0.25)
                 continue
             break
+        with self.lock:
+            self.inflight.pop(token, None)
         return st, txt, t0, t1
 
     def post_all(self, items):
@@ -479,16 +517,40 @@ class Session:
                 out[k] = r
         return out
 
-    def wait_visible(self, timeout=60):
-        """new series appear in queries after the index flush: write a sentinel last and poll for it"""
+    def post_chains(self, chains):
+        """chains: list of (key, db, [(body, prec), ...]): the requests of a chain one after the other, chains in parallel
+        -> {key: [(status, text, t0, t1), ...]}"""
+        out = {}
+
+        def work(ch):
+            rs = []
+            for i, (body, prec) in enumerate(ch[2]):
+                rs.append(self.post_retry(ch[1], body, prec, repro=[(ch[1], b, p) for b, p in ch[2][:i + 1]]))
+            return ch[0], rs
+
+        with cf.ThreadPoolExecutor(self.threads) as ex:
+            for k, r in ex.map(work, chains):
+                out[k] = r
+        return out
+
+    def wait_visible(self, timeout=240, late=False):
+        """new series appear in queries after the index flush: write a sentinel last and poll for it (late: also one
+        in the later shard group the schema cases write to, which has its own index)"""
         name = "c06sentinel%d" % time.time_ns()
         for db in self.dbs:
             self.post_retry(db, name + ",k=v v=1i 1000", None, tries=40)
+        if late:
+            self.post_retry(self.dbs[0], name + ",k=w v=1i %d" % S_LATE[0], None, tries=40)
         t0 = time.time()
         for db in self.dbs:
             while True:
-                st, body = self.srv.http("GET", "/query", {"q": "select * from " + name, "db": db, "epoch": "ns"}, timeout=120)
-                if st == 200 and '"values"' in body:
+                try:
+                    st, body = self.srv.http("GET", "/query", {"q": "select * from " + name, "db": db, "epoch": "ns"}, timeout=120)
+                except Exception as ex:                # noqa  (a starved machine: the poll goes on until the time is up)
+                    if not self.srv.alive():
+                        raise self._dead("a query")
+                    st, body = 599, "client error: %r" % (ex,)
+                if st == 200 and '"values"' in body and (not late or db != self.dbs[0] or str(S_LATE[0]) in body):
                     break
                 if time.time() - t0 > timeout:
                     raise vlib.Infra("sentinel measurement never became visible: " + body[:300])
@@ -501,7 +563,7 @@ class Session:
             return self.srv.http("GET", "/query", {"q": q, "db": db, "epoch": "ns"}, timeout=180)
         except Exception as ex:                # noqa
             if not self.srv.alive():
-                raise vlib.Infra("ts-server died during a query:\n" + self.srv.tail_log())
+                raise self._dead("a query")
             raise vlib.Infra("query failed: %r" % (ex,))
 
     def read_points(self, wanted):
@@ -764,6 +826,7 @@ def _sample(tr, n, rnd):
 
 
 VALUE_REPS = {"quick": 8, "thorough": 24}
+TLC_JOBS = 5          # TLC processes at a time (Mode A of both modules next to the exports)
 
 
 def gen_cases(tier, seed):
@@ -776,14 +839,26 @@ def gen_cases(tier, seed):
             # escapes in one tag + one field up to 10 classes (m,k=\,v f=1i needs 10): every accepted line is replayed
             ("esc", "LineProtocol.bfs.esc.cfg", 2400, 10**9)]
     nsim = 600 if tier == "quick" else 8000
-    # the TLC runs are independent processes: Mode A next to the exports (three at a time); what is sampled, and in
-    # which order the seeded generator is used, does not depend on the order in which they finish
-    with cf.ThreadPoolExecutor(3) as ex:
-        fexh = ex.submit(_tlc, "LineProtocol.exh.%s.cfg" % tier, stats, "exh", timeout=3000)
+    # what is sampled, and in which order the seeded generator is used, does not depend on the order in which the
+    # TLC runs finish
+    nssim = 250 if tier == "quick" else 4000
+    # the TLC runs are independent processes, TLC_JOBS at a time: the exports first (the replay starts when they are
+    # done), Mode A of both modules behind them: it goes on next to the replay and must have passed before a verdict
+    ex = cf.ThreadPoolExecutor(TLC_JOBS)
+    try:
         futs = {key: ex.submit(_tlc, cfg, stats, key, workers=8) for key, cfg, _, _ in plan}
         futs["sim"] = ex.submit(_tlc, "LineProtocol.sim.cfg", stats, "sim", simulate=nsim, depth=40, seed=seed)
-        fexh.result()                      # Mode A must pass (vlib.Infra otherwise)
+        for key, cfg, _, _ in S_PLAN:
+            futs[key] = ex.submit(_tlc_s, cfg, stats, key, workers=6)
+        futs["s_sim"] = ex.submit(_tlc_s, "LineSchema.sim.cfg", stats, "s_sim", simulate=nssim, depth=12, seed=seed)
+        mode_a = [ex.submit(_tlc, "LineProtocol.exh.%s.cfg" % tier, stats, "exh", timeout=3000, workers=6)]
+        for key, name in (("s_exh", "exh"), ("s_exh2", "exh2")) + ((("s_exh3", "exh3"),) if tier == "thorough" else ()):
+            mode_a.append(ex.submit(_tlc_s, "LineSchema.%s.%s.cfg" % (name, tier), stats, key, timeout=3000, workers=6))
         res = {key: f.result() for key, f in futs.items()}
+    except BaseException:
+        ex.shutdown(wait=False, cancel_futures=True)
+        raise
+    ex.shutdown(wait=False)
     cases = []
     for key, cfg, nquick, nthorough in plan:
         tr = _sample(_canon(res[key]["traces"]), nquick if tier == "quick" else nthorough, rnd)
@@ -796,7 +871,18 @@ def gen_cases(tier, seed):
     tr = _sample(res["sim"]["traces"], 1500 if tier == "quick" else 20000, rnd)
     stats["sim"]["replayed"] = len(tr)
     cases += [dict(t, src="sim") for t in tr]
-    return cases, stats
+    # schema layer: sequences of requests for one measurement
+    rnd = random.Random(seed * 31 + 7)
+    scases = []
+    for key, _, nquick, nthorough in S_PLAN + [("s_sim", None, 1200, 20000)]:
+        # behaviours in which a failed schema command left a new name behind in meta (marker partial_pool_applied of
+        # LineSchema.tla, only with F-C06-9 / F-C06-10) have no deterministic as-implemented prediction: not replayed
+        det = [t for t in res[key]["traces"] if not s_nondet(t)]
+        stats[key]["not_replayed_nondeterministic"] = len(res[key]["traces"]) - len(det)
+        tr = s_sample(det, nquick if tier == "quick" else nthorough, rnd)
+        stats[key]["replayed"] = len(tr)
+        scases += [dict(t, src=key) for t in tr]
+    return cases, scases, stats, mode_a
 
 
 # ------------------------------------------------------------------------------------------------
@@ -931,54 +1017,424 @@ def run_batches(sess, batches):
                         "ftypes": ftypes.get(m["exp"]["mst"], {})}
 
 
+# ------------------------------------------------------------------------------------------------
+# schema layer (specs/LineSchema.tla): sequences of requests for ONE measurement
+
+
+def key_texts(rnd, n):
+    """n distinct key texts in byte order: name i of the specification is the i-th smallest (points_writer.go sorts
+    the fields of a row by key before the schema check)"""
+    out = set()
+    while len(out) < n:
+        base = rnd.choice(P_FIRST) + b36(rnd.randrange(36 ** 3))
+        r = rnd.random()
+        if r < 0.15:
+            base += rnd.choice([" ", ",", "="]) + rnd.choice(P_LAST)          # escaped in the line text
+        elif r < 0.25:
+            base += rnd.choice(U_ALPHA)
+        elif r < 0.40:
+            base += rnd.choice(P_PUNCT) + rnd.choice(P_LAST)
+        if base != "time":
+            out.add(base)
+    return sorted(out, key=lambda x: x.encode("utf-8"))
+
+
+def esc_key(k):
+    return k.replace(",", "\\,").replace(" ", "\\ ").replace("=", "\\=")
+
+
+def str_text(rnd):
+    """-> (text of a quoted string field value, its value). A backslash escapes a quote and a backslash; in front of
+    anything else it is literal, so k backslashes in front of an ordinary character are spelled 2k or 2k-1"""
+    parts = []
+    for _ in range(rnd.choice([0, 1, 1, 2, 2, 3, 4])):
+        r = rnd.random()
+        if r < 0.35:
+            parts.append(rnd.choice(["a", "Zq", "7", " ", ",", "=", "é", "x y", "C:", "dir", "'", "日本", "k=v,", "file"]))
+        elif r < 0.65:
+            parts.append("\\" * rnd.choice([1, 1, 2, 2, 3]))
+        elif r < 0.78:
+            parts.append('"')
+        else:
+            parts.append(b36(rnd.randrange(36 ** 4)))
+    val = "".join(parts)
+    txt, i = "", 0
+    while i < len(val):
+        c = val[i]
+        if c == "\\":
+            j = i
+            while j < len(val) and val[j] == "\\":
+                j += 1
+            k = j - i
+            plain_next = j < len(val) and val[j] != '"'
+            txt += "\\" * (2 * k - 1 if plain_next and rnd.random() < 0.4 else 2 * k)
+            i = j
+        elif c == '"':
+            txt += '\\"'
+            i += 1
+        else:
+            txt += c
+            i += 1
+    return '"' + txt + '"', val
+
+
+def s_concretise(case, cid, seed):
+    """a TLC case of LineSchemaMC -> request bodies + the concrete value of every field text"""
+    rnd = sub_rng(seed, cid)
+    keys = key_texts(rnd, len(case["sch"]))
+    kid = {e["k"]: keys[i] for i, e in enumerate(sorted(case["sch"], key=lambda e: e["k"]))}
+    mst = plain_text(rnd, cid, 1, True)
+    tagval, times, used = {}, {}, set()
+
+    def tval(v):
+        if v not in tagval:
+            tagval[v] = rnd.choice(P_FIRST) + b36(rnd.randrange(36 ** 2)) + rnd.choice(["", "", "\\,", "\\ ", "\\=", "é", "."]) + v
+        return tagval[v]
+
+    def ctime(t, late):
+        if t not in times:
+            lo, hi = S_LATE if late else S_EARLY
+            while True:
+                x = rnd.choice([rnd.randint(lo, hi - 1), lo + rnd.randint(0, 50)])
+                if x not in used:
+                    break
+            used.add(x)
+            times[t] = x
+        return times[t]
+
+    vals, reqs, n = {}, [], 0
+    for r in case["reqs"]:
+        lines = []
+        for l in r["lines"]:
+            n += 1
+            flds = []
+            for f in l["fields"]:
+                if f["tok"] == "STR":
+                    txt, v = str_text(rnd)
+                else:
+                    txt = value_text(rnd, f["tok"])
+                    if f["t"] == "int":
+                        v = int(txt[:-1])
+                    elif f["t"] == "float":
+                        v = float(txt[:-1] if txt.endswith("f") else txt)
+                    elif f["t"] == "bool":
+                        v = f["val"] == "true"
+                    else:
+                        raise vlib.Infra("unknown field type %r" % (f,))
+                vals[(n, f["k"])] = (f["t"], v, f["via"])
+                flds.append(esc_key(kid[f["k"]]) + "=" + txt)
+            tags = [esc_key(kid[t["k"]]) + "=" + tval(t["v"]) for t in l["tags"]]
+            rnd.shuffle(flds)
+            rnd.shuffle(tags)
+            lines.append(mst + "".join("," + t for t in tags) + " " + ",".join(flds) + " " + str(ctime(l["time"], l["late"])))
+        reqs.append({"body": rnd.choice(["\n", "\n", "\r\n"]).join(lines) + rnd.choice(["", "\n"]), "n": len(lines)})
+    unesc = {v: re.sub(r"\\([, =])", r"\1", t) for v, t in tagval.items()}
+    return {"id": cid, "case": case, "mst": mst, "kid": kid, "tagval": unesc, "times": times, "vals": vals, "reqs": reqs,
+            "body": " | ".join(r["body"] for r in reqs)}
+
+
+def s_prediction(cc, pred, f64):
+    """the concrete prediction of the design state (pred = None) or of a prediction state of the specification (pred = an
+    entry of case["preds"]), integers exact or through float64 (F-C06-1)
+    -> {"replies": [(class, dropped)], "rows": [(tags, time, cells)], "ftypes": {...}}"""
+    case = cc["case"]
+    view, sch = (case["view"], case["sch"]) if pred is None else (pred["view"], pred["sch"])
+    ty = {e["k"]: e["ty"] for e in sch}
+    rows, changed = {}, False
+    for c in view:
+        # queries show the tag keys the schema knows as tags; the series key holds every tag of the line
+        full = tuple(sorted((cc["kid"][t["k"]], cc["tagval"][t["v"]]) for t in c["tags"]))
+        shown = tuple(sorted((cc["kid"][t["k"]], cc["tagval"][t["v"]]) for t in c["tags"] if ty[t["k"]] == "tag"))
+        typ, v, via = cc["vals"][(c["ref"], c["k"])]
+        if typ != c["tt"]:
+            raise vlib.Infra("cell type %r differs from the text type %r" % (c, typ))
+        if f64 and typ == "int" and via == "f64" and int_via_float64(v) != v:
+            v, changed = int_via_float64(v), True
+        rows.setdefault((full, cc["times"][c["time"]]), (shown, {}))[1][cc["kid"][c["k"]]] = (typ, v)
+    replies = [(r["st"], r["dropped"]) for r in (case["reqs"] if pred is None else pred["replies"])]
+    return {"replies": replies, "rows": [(shown, t, cells) for (full, t), (shown, cells) in rows.items()],
+            "ftypes": {cc["kid"][k]: TYPE_NAME[t] for k, t in ty.items() if t in TYPE_NAME}, "f64_changed": changed}
+
+
+def cell_ok(typ, want, v):
+    if typ == "int":
+        return isinstance(v, Num) and str(v) == str(want)
+    if typ == "float":
+        return isinstance(v, Num) and _same_float(str(v), want)
+    if typ == "bool":
+        return v is want
+    return not isinstance(v, Num) and isinstance(v, str) and v == want
+
+
+def s_match(obs, pred):
+    """obs = {"replies": [(status, text)], "stored", "ftypes"} against a concrete prediction -> (ok, detail)"""
+    for i, ((st, txt), (wst, wdrop)) in enumerate(zip(obs["replies"], pred["replies"]), 1):
+        if wst == 204:
+            if not (200 <= st < 300):
+                return False, "request %d: expected 204, answered %d %s" % (i, st, txt.strip()[:160])
+        else:
+            if st != 400 or "partial write" not in txt:
+                return False, "request %d: expected 400 partial write, answered %d %s" % (i, st, txt.strip()[:160])
+            mm = re.search(r"dropped=(\d+)", txt)
+            if not mm or int(mm.group(1)) != wdrop:
+                return False, "request %d: expected dropped=%d, answered %s" % (i, wdrop, txt.strip()[:200])
+    stored = obs["stored"]
+    if isinstance(stored, dict) and "error" in stored:
+        return False, "query error: " + stored["error"][:300]
+    got = []
+    for s in (stored or {}).get("series", []):
+        tags = tuple(sorted((str(k), str(v)) for k, v in (s.get("tags") or {}).items()))
+        cols = [str(c) for c in s["columns"]]
+        if cols[0] != "time":
+            return False, "first column is %r" % (cols[0],)
+        for row in s.get("values", []):
+            if not isinstance(row[0], Num):
+                return False, "time is not a number: %r" % (row[0],)
+            got.append((tags, int(row[0]), {c: v for c, v in zip(cols[1:], row[1:]) if v is not None}, set(cols[1:])))
+    want = list(pred["rows"])
+    fkeys = set(pred["ftypes"])
+    for tags, t, cells, cols in got:
+        if not cols <= fkeys:
+            return False, "columns %r are not fields of the measurement (%r)" % (sorted(cols - fkeys), sorted(fkeys))
+        hit = None
+        for j, (wtags, wt, wcells) in enumerate(want):
+            if wtags == tags and wt == t and set(wcells) == set(cells) and all(cell_ok(wcells[c][0], wcells[c][1], cells[c]) for c in cells):
+                hit = j
+                break
+        if hit is None:
+            near = [(wc) for wtags, wt, wc in want if wtags == tags and wt == t]
+            return False, "stored row tags=%r time=%d %s is not what was written (%s)" % (
+                dict(tags), t, json.dumps(cells, ensure_ascii=False)[:300],
+                ("expected " + repr(near[0])[:300]) if near else "no such series / time expected")
+        want.pop(hit)
+    if want:
+        wtags, wt, wcells = want[0]
+        return False, "%d expected rows are not stored, e.g. tags=%r time=%d %r" % (len(want), dict(wtags), wt, wcells)
+    have = {k: v for k, v in (obs.get("ftypes") or {}).items()}
+    if have != pred["ftypes"]:
+        return False, "field types %r != %r" % (have, pred["ftypes"])
+    return True, ""
+
+
+def s_judge(cc, obs, open_ids):
+    """-> ("ok" | "known" | "bad", finding ids, detail): the design first, then the design with integers through float64
+    (F-C06-1), then the prediction states of the specification in which a deviation fired in this case: the
+    as-implemented ones (single deviations, then all of them), the regression ones last; every attribution is the exact
+    equality with that prediction and names the deviations that FIRED"""
+    preds = sorted(cc["case"]["preds"], key=lambda x: (any(d in S_FIXED_OF for d in x["dev"]), len(x["dev"])))
+    for x in preds:
+        unknown = [d for d in x["dev"] if d not in S_FINDING_OF and d not in S_FIXED_OF]
+        if unknown:
+            raise vlib.Infra("prediction state with unknown deviation %r" % (unknown,))
+    first = None
+    for pred in [None] + preds:
+        for f64 in (False, True):
+            p = s_prediction(cc, pred, f64)
+            if f64 and not p["f64_changed"]:
+                continue
+            ok, det = s_match(obs, p)
+            if first is None:
+                first = det
+            if not ok:
+                continue
+            if pred is None and not f64:
+                return "ok", [], ""
+            devs = ([d for d in pred["trig"] if d != S_MARKER] if pred else []) + (["int_via_float64"] if f64 else [])
+            fixed = [d for d in devs if d in S_FIXED_OF]
+            if fixed:
+                return "bad", sorted({S_FIXED_OF[d][0] for d in fixed}), first + (
+                    " (REGRESSION: equals the prediction of the deviation model %s of the repaired finding %s)" % (
+                        "+".join(fixed), ", ".join("%s (fixed by %s)" % S_FIXED_OF[d] for d in fixed)))
+            ids = sorted({S_FINDING_OF.get(d) or FINDING_OF[d] for d in devs})
+            if all(i in open_ids for i in ids):
+                return "known", ids, first
+            return "bad", ids, first + " (equals the prediction of %s, which is not an open finding)" % (devs,)
+    return "bad", [], first
+
+
+def s_nondet(t):
+    """the code as it is (the prediction state of all of SImplDev) met the marker partial_pool_applied"""
+    return any(S_MARKER in x["trig"] and set(x["dev"]) == set(S_FINDING_OF) for x in t["preds"])
+
+
+def s_sample(tr, n, rnd):
+    """seeded sample of n cases, 70 % of them with a request the design answers with a partial write"""
+    tr = sorted(tr, key=lambda t: json.dumps(t["reqs"], sort_keys=True))
+    if len(tr) <= n:
+        return tr
+    hot = [t for t in tr if t["preds"] or any(r["st"] != 204 for r in t["reqs"])]
+    cold = [t for t in tr if not (t["preds"] or any(r["st"] != 204 for r in t["reqs"]))]
+    nh = min(len(hot), n * 70 // 100)
+    nc = min(len(cold), n - nh)
+    nh = min(len(hot), n - nc)
+    return rnd.sample(hot, nh) + rnd.sample(cold, nc)
+
+
+S_PLAN = [  # key, cfg, cases replayed by the quick / thorough tier
+    ("s_pairs", "LineSchema.bfs.pairs.cfg", 10**9, 10**9), ("s_multi", "LineSchema.bfs.multi.cfg", 1200, 10**9),
+    ("s_clash", "LineSchema.bfs.clash.cfg", 900, 12000), ("s_over", "LineSchema.bfs.over.cfg", 500, 10**9)]
+
+
+def _cfg_sdevsets(cfg):
+    txt = open(os.path.join(os.path.dirname(os.path.abspath(__file__)), "..", "specs", "cfg", cfg)).read()
+    for name, want in (("SImplDev", set(S_FINDING_OF)), ("SFixedDev", set(S_FIXED_OF)), ("ImplDev", set(IMPL_DEVS))):
+        mm = re.search(r"^\s*%s\s*=\s*\{([^}]*)\}" % name, txt, re.M)
+        if not mm or set(re.findall(r'"([^"]+)"', mm.group(1))) != want:
+            raise vlib.Infra("%s: constant %s differs from S_FINDING_OF / S_FIXED_OF / IMPL_DEVS of props/c06.py" % (cfg, name))
+
+
+def _tlc_s(cfg, stats, key, timeout=1500, **kw):
+    _cfg_sdevsets(cfg)
+    r = vlib.run_tlc("LineSchemaMC", cfg, timeout=timeout, **kw)
+    vlib.tlc_must_pass(r, cfg)
+    stats[key] = {"cfg": cfg, "generated": r["generated"], "distinct": r["distinct"], "depth": r["depth"],
+                  "wall_s": round(r["wall_s"], 1), "cases": len(r["traces"])}
+    return r
+
+
+def s_observe(sess, sccs):
+    res = sess.post_chains([(cc["id"], "c06", [(r["body"], None) for r in cc["reqs"]]) for cc in sccs])
+    sess.wait_visible(late=True)
+    wanted = [(cc["id"], "c06", cc["mst"]) for cc in sccs]
+
+    def read(which):
+        stored = sess.read_points([w for w in wanted if w[0] in which])
+        ftypes = sess.field_types("c06")
+        for cc in sccs:
+            if cc["id"] in which:
+                cc["obs"] = {"replies": [(st, txt) for st, txt, _, _ in res[cc["id"]]], "stored": stored.get(cc["id"]),
+                             "ftypes": ftypes.get(cc["mst"], {})}
+
+    read({cc["id"] for cc in sccs})
+    return read
+
+
+def s_replay(sess, sccs, open_ids):
+    """post, read back, judge; a case that matches no prediction is read again (up to 3 times, 1.5 s apart): a new
+    series becomes searchable shard by shard, a wrong cell stays wrong"""
+    read = s_observe(sess, sccs)
+    for rnd_ in range(4):
+        again = set()
+        for cc in sccs:
+            if cc.get("verdict") in ("ok", "known"):
+                continue
+            cc["verdict"], cc["findings"], cc["detail"] = s_judge(cc, cc["obs"], open_ids)
+            if cc["verdict"] == "bad":
+                again.add(cc["id"])
+        if not again or rnd_ == 3:
+            break
+        time.sleep(1.5)
+        read(again)
+
+
 def slim(cc):
     return {k: cc[k] for k in ("id", "rid", "case", "body", "prec", "db") if k in cc}
 
 
-def replay_cases(cases, seed, tier, nbatches):
+def confirm_crash(cands):
+    """the server died: every request (sequence) that was in flight is posted alone, one after the other, to a fresh
+    server -> (the requests after which that server is dead as well, the tail of its log) or (None, "")"""
+    uniq, seen = [], set()
+    for c in cands:
+        k = json.dumps(c)
+        if k not in seen:
+            seen.add(k)
+            uniq.append(c)
+    vlib.log("[c06] ts-server died; %d requests (sequences) were in flight: each is posted alone to a fresh server" % len(uniq))
+    sess = Session(threads=2)
+    try:
+        for c in uniq:
+            try:
+                for db, body, prec in c:
+                    sess.post_retry(db, body, prec, tries=3)
+                time.sleep(0.2)
+                sess.post_retry(sess.dbs[0], "c06alive v=1i 1000", None, tries=3)
+            except ServerDied:
+                return c, sess.srv.tail_log(6000)
+            if not sess.srv.alive():
+                return c, sess.srv.tail_log(6000)
+    finally:
+        sess.stop()
+    return None, ""
+
+
+def replay_cases(cases, scases, seed, tier, nbatches, sess=None):
     """-> summary dict"""
     open_ids = {f["id"] for f in vlib.load_known(PROP)}
     ccs = [concretise(c, i + 1, seed) for i, c in enumerate(cases)]
+    sccs = [s_concretise(c, len(cases) + 10 * nbatches + 1000 + i, seed) for i, c in enumerate(scases)]
     rnd = random.Random(seed + 11)
     for cc in ccs:
         cc["eol"] = "\r" if rnd.random() < 0.05 else ""       # CRLF line ends are accepted
-    sess = Session()
+    sess = sess or Session()
+    s_err, t_s = [], [0.0]
+
+    def s_work():                  # the request sequences have their own measurements: replayed next to the single lines
+        t0 = time.time()
+        try:
+            if sccs:
+                s_replay(sess, sccs, open_ids)
+        except BaseException as ex:            # noqa
+            s_err.append(ex)
+        t_s[0] = time.time() - t0
+
+    s_thread = threading.Thread(target=s_work, daemon=True)
+    died = None
     try:
-        skipped = assign_dbs(ccs, sess)
-        t0 = time.time()
-        observe_all(sess, ccs)
-        t_single = time.time() - t0
-        live = [cc for cc in ccs if cc.get("db")]
-        for cc in live:
-            cc["verdict"], cc["findings"], cc["detail"] = judge(cc, cc["obs"], open_ids)
-        # nothing but the expected measurements may exist
-        stray = []
-        for db in sess.dbs:
-            have = sess.measurements(db)
-            # (a rejected line may leave its measurement behind, empty: that one is read back like any other)
-            want = {cc["exp"]["mst"] for cc in live if cc["db"] == db}
-            for name in have - want:
-                if name.startswith("c06warm") or name.startswith("c06sentinel"):
-                    continue
-                stray.append((db, name, [cc["body"] for cc in live if name[:6] in cc["body"]][:3]))
-        batches, _ = make_batches(live, seed, nbatches, len(ccs) + 1)
-        t0 = time.time()
-        if batches:
-            run_batches(sess, batches)
-            for b in batches:
-                b["verdict"], b["findings"], b["detail"] = judge_batch(b, open_ids)
-        t_batch = time.time() - t0
+        s_thread.start()
+        try:
+            skipped = assign_dbs(ccs, sess)
+            t0 = time.time()
+            observe_all(sess, ccs)
+            t_single = time.time() - t0
+            live = [cc for cc in ccs if cc.get("db")]
+            for cc in live:
+                cc["verdict"], cc["findings"], cc["detail"] = judge(cc, cc["obs"], open_ids)
+            # nothing but the expected measurements may exist
+            stray = []
+            for db in sess.dbs:
+                have = sess.measurements(db)
+                # (a rejected line may leave its measurement behind, empty: that one is read back like any other)
+                want = {cc["exp"]["mst"] for cc in live if cc["db"] == db}
+                smst = {x["mst"] for x in sccs}
+                for name in have - want - smst:
+                    if name.startswith("c06warm") or name.startswith("c06sentinel"):
+                        continue
+                    stray.append((db, name, [cc["body"] for cc in live if name[:6] in cc["body"]][:3]))
+            batches, _ = make_batches(live, seed, nbatches, len(ccs) + 1)
+            t0 = time.time()
+            if batches:
+                run_batches(sess, batches)
+                for b in batches:
+                    b["verdict"], b["findings"], b["detail"] = judge_batch(b, open_ids)
+            t_batch = time.time() - t0
+        except ServerDied as ex:
+            died = ex
+        s_thread.join()
+        died = died or next((e for e in s_err if isinstance(e, ServerDied)), None)
+        if s_err and not died:
+            raise s_err[0]
+        t_schema = t_s[0]
     finally:
+        if s_thread.is_alive():
+            s_thread.join(timeout=600)
+        cands = list(sess.inflight.values())
         sess.stop()
+    if died:
+        culprit, tail = confirm_crash(cands)
+        if culprit is None:
+            raise died                      # not reproduced by any single request: infrastructure
+        return {"crash": {"requests": culprit, "log": tail}, "sccs": [], "live": [], "batches": []}
     return {"ccs": ccs, "live": live, "skipped": skipped, "stray": stray, "batches": batches, "t_single": t_single,
-            "t_batch": t_batch, "open_ids": open_ids}
+            "t_batch": t_batch, "open_ids": open_ids, "sccs": sccs, "t_schema": t_schema}
 
 
 def report(summary, seed):
     """prints KNOWN-FINDING / VIOLATION lines -> (number of violations, per-finding counts, reject5xx)"""
     live, batches = summary["live"], summary["batches"]
+    sccs = summary.get("sccs", [])
     known = {}
-    for x in live + batches:
+    for x in live + batches + sccs:
         if x.get("verdict") == "known":
             for fid in x["findings"]:
                 known.setdefault(fid, []).append(x)
@@ -1005,6 +1461,19 @@ def report(summary, seed):
         print("VIOLATION property=%s replay=%s" % (PROP, path))
         vlib.log("  batch %r -> %d: %s" % (b["body"], b["status"], b["detail"]))
     nviol += len(badb)
+    groups = {}
+    for x in sccs:
+        if x["verdict"] == "bad":
+            groups.setdefault(re.sub(r"[0-9]+|'[^']*'|\"[^\"]*\"", "#", x["detail"])[:60], []).append(x)
+    for g, xs in sorted(groups.items(), key=lambda kv: -len(kv[1])):
+        for x in xs[:2]:
+            path = vlib.save_replay(PROP, {"kind": "schema", "seed": seed, "id": x["id"], "case": x["case"],
+                                           "requests": [r["body"] for r in x["reqs"]],
+                                           "answers": [[st, txt[:300]] for st, txt in x["obs"]["replies"]], "detail": x["detail"]})
+            print("VIOLATION property=%s replay=%s" % (PROP, path))
+            vlib.log("  requests %r -> %s: %s (%d alike)" % ([r["body"] for r in x["reqs"]], [st for st, _ in x["obs"]["replies"]],
+                                                           x["detail"], len(xs)))
+        nviol += len(xs)
     for db, name, cand in summary["stray"][:5]:
         path = vlib.save_replay(PROP, {"kind": "stray", "seed": seed, "db": db, "measurement": name, "candidates": cand})
         print("VIOLATION property=%s replay=%s" % (PROP, path))
@@ -1019,20 +1488,62 @@ def report(summary, seed):
 
 def run(tier, seed):
     t0 = time.time()
-    cases, stats = gen_cases(tier, seed)
-    t_tlc = time.time() - t0
-    summary = replay_cases(cases, seed, tier, 250 if tier == "quick" else 3000)
+    sx = cf.ThreadPoolExecutor(1)
+    fsess = sx.submit(Session)             # the server is built and started while TLC generates
+    try:
+        cases, scases, stats, mode_a = gen_cases(tier, seed)
+        t_tlc = time.time() - t0
+        sess = fsess.result()
+    except BaseException:
+        try:
+            fsess.result().stop()
+        except BaseException:              # noqa
+            pass
+        raise
+    finally:
+        sx.shutdown(wait=False)
+    summary = replay_cases(cases, scases, seed, tier, 250 if tier == "quick" else 3000, sess=sess)
+    for f in mode_a:
+        f.result()                         # Mode A must pass (vlib.Infra otherwise)
+    t_modea = time.time() - t0
+    if "crash" in summary:
+        cr = summary["crash"]
+        panic = [ln for ln in cr["log"].splitlines() if ln.startswith("panic:") or "fatal error" in ln][:2]
+        path = vlib.save_replay(PROP, {"kind": "crash", "seed": seed, "requests": cr["requests"], "panic": panic})
+        print("VIOLATION property=%s replay=%s" % (PROP, path))
+        vlib.log("  the ts-server process dies on the request sequence %r (%s); reproduced on a fresh server" % (
+            [b for _, b, _ in cr["requests"]], "; ".join(panic) or "see the log"))
+        vlib.log(cr["log"][-1500:])
+        vlib.write_evidence(PROP, tier, seed, "model_checking", {
+            "states": stats["exh"]["distinct"], "transitions": stats["exh"]["generated"], "exhaustive": True,
+            "traces_validated_against_impl": 1, "samples": [{"requests": [b for _, b, _ in cr["requests"]], "expected": "answered"}],
+            "evaluations": 1, "distinct_nontrivial": 1, "rule": "the replay stopped at a request sequence that kills the server", "tlc": stats},
+            time.time() - t0, 1, ["the run ends at the first reproduced server crash"])
+        return 1
     nviol, known, r5 = report(summary, seed)
-    live, batches = summary["live"], summary["batches"]
+    live, batches, sccs = summary["live"], summary["batches"], summary["sccs"]
+    nreq = sum(len(x["reqs"]) for x in sccs)
+    nconf = sum(1 for x in sccs if any(r["st"] != 204 for r in x["case"]["reqs"]))
     acc = [x for x in live if x["exp"]["kind"] == "Accept"]
     distinct = len({json.dumps(c["line"]) + c.get("prec", "") for c in cases})
     cov = {
         "states": stats["exh"]["distinct"], "transitions": stats["exh"]["generated"], "exhaustive": True,
-        "traces_validated_against_impl": len(live) + len(batches),
-        "samples": [{"line": x["case"]["line"], "text": x["body"], "expected": x["case"]["exp"]["kind"]} for x in (live[:1] + acc[-1:])],
-        "evaluations": len(live) + len(batches), "distinct_nontrivial": distinct,
+        "traces_validated_against_impl": len(live) + len(batches) + len(sccs),
+        "samples": [{"line": x["case"]["line"], "text": x["body"], "expected": x["case"]["exp"]["kind"]} for x in (live[:1] + acc[-1:])]
+                   + [{"requests": [r["body"] for r in x["reqs"]], "expected_replies": [[r["st"], r["dropped"]] for r in x["case"]["reqs"]],
+                       "expected_cells": len(x["case"]["view"])} for x in [y for y in sccs if any(r["st"] != 204 for r in y["case"]["reqs"])][:1]],
+        "evaluations": len(live) + len(batches) + len(sccs),
+        "distinct_nontrivial": distinct + len({json.dumps(c["reqs"], sort_keys=True) for c in scases}),
         "rule": "one evaluation = one concrete line (or batch) posted to /write of the real server and read back; distinct = distinct "
-                "class sequences (with precision) of LineProtocol.tla; every one decodes to a point or to Reject in the specification",
+                "class sequences (with precision) of LineProtocol.tla; every one decodes to a point or to Reject in the specification; "
+                "schema layer: one evaluation = one request sequence for one measurement (LineSchema.tla), every reply and every stored "
+                "cell compared; distinct = distinct abstract request sequences",
+        "schema": {"states": sum(stats[k]["distinct"] for k in stats if k.startswith("s_exh")),
+                   "transitions": sum(stats[k]["generated"] for k in stats if k.startswith("s_exh")),
+                   "sequences": len(sccs), "requests": nreq, "sequences_with_partial_write": nconf,
+                   "cells_expected": sum(len(x["case"]["view"]) for x in sccs),
+                   "by_source": {k: sum(1 for x in sccs if x["case"].get("src") == k) for k in [p[0] for p in S_PLAN] + ["s_sim"]},
+                   "as_implemented_fired": sum(1 for x in sccs if x["case"]["preds"])},
         "tlc": stats, "lines_expected_accept": len(acc), "lines_expected_reject": len(live) - len(acc),
         "lines_stored_and_compared": sum(1 for x in acc if x["obs"]["stored"] is not None),
         "batches": len(batches), "batch_shapes": sorted({b["shape"] for b in batches}),
@@ -1040,6 +1551,7 @@ def run(tier, seed):
         "known_finding_cases": known, "rejected_with_5xx": r5, "skipped_nonunique_measurement": summary["skipped"],
         "by_source": {k: sum(1 for x in live if x["case"].get("src") == k) for k in ("struct", "values", "ts", "tags", "esc", "sim")},
         "wall_tlc_s": round(t_tlc, 1), "wall_lines_s": round(summary["t_single"], 1), "wall_batches_s": round(summary["t_batch"], 1),
+        "wall_schema_s": round(summary["t_schema"], 1), "wall_mode_a_done_s": round(t_modea, 1),
     }
     vlib.write_evidence(PROP, tier, seed, "model_checking", cov, time.time() - t0, nviol, [
         "TLC bounds as in the cfg files named under coverage.tlc; quick tier replays a seeded sample of the exported lines",
@@ -1047,15 +1559,29 @@ def run(tier, seed):
         "single-node ts-server over HTTP (/write, /query with epoch=ns); new series judged after the index flush (sentinel polled once)",
         "tags `\\\\` in key positions decode to one backslash (VictoriaMetrics/openGemini rule), measurement names may not contain , or \\\\",
         "a batch answered 4xx may or may not store its valid lines (the statement does not say); an acknowledged batch must store them all",
+        "schema layer: a field whose type conflicts with the measurement's schema is dropped, the other fields of the line and the other "
+        "lines of the request are stored, the request is answered 400 partial write (openGemini's rule; InfluxDB drops the point); "
+        "a tag named as an existing field drops the line (design decision, F-C06-9); tag and field names of one line do not overlap; "
+        "two shard groups; one measurement per sequence; precision ns",
     ])
-    vlib.log("[c06] %d lines (%d expected valid), %d batches, tlc %.0fs, lines %.0fs, batches %.0fs, known %s, violations %d" % (
-        len(live), len(acc), len(batches), t_tlc, summary["t_single"], summary["t_batch"], known, nviol))
+    vlib.log("[c06] %d lines (%d expected valid), %d batches, %d request sequences (%d requests, %d with a partial write), tlc %.0fs, "
+             "lines %.0fs, batches %.0fs, sequences %.0fs, known %s, violations %d" % (
+                 len(live), len(acc), len(batches), len(sccs), nreq, nconf, t_tlc, summary["t_single"], summary["t_batch"],
+                 summary["t_schema"], known, nviol))
     return 1 if nviol else 0
 
 
 def replay(path, seed):
     obj = json.load(open(path))
     open_ids = {f["id"] for f in vlib.load_known(PROP)}
+    if obj["kind"] == "crash":
+        culprit, tail = confirm_crash([[tuple(r) for r in obj["requests"]]])
+        if culprit:
+            print("VIOLATION property=%s replay=%s" % (PROP, path))
+            vlib.log("the ts-server process dies on %r\n%s" % ([b for _, b, _ in culprit], tail[-1500:]))
+            return 1
+        print("replay passes")
+        return 0
     sess = Session(threads=4)
     try:
         if obj["kind"] == "line":
@@ -1076,6 +1602,12 @@ def replay(path, seed):
             run_batches(sess, [b])
             v, ids, det = judge_batch(b, open_ids)
             vlib.log("batch %r -> %d %s" % (b["body"], b["status"], b["text"].strip()[:200]))
+        elif obj["kind"] == "schema":
+            cc = s_concretise(obj["case"], obj["id"], obj.get("seed", seed))
+            s_replay(sess, [cc], open_ids)
+            v, ids, det = cc["verdict"], cc["findings"], cc["detail"]
+            vlib.log("requests %r -> %r; stored %s" % ([r["body"] for r in cc["reqs"]], [(st, txt.strip()[:160]) for st, txt in cc["obs"]["replies"]],
+                                                      json.dumps(cc["obs"]["stored"], ensure_ascii=False)[:600]))
         else:
             print("replay of kind %r needs the whole run" % obj["kind"])
             return 2
@@ -1096,6 +1628,11 @@ SEEDS = ["accept_no_field", "unescape_drops_backslash", "reject_recovers", "bool
          "fsuffix_unvalidated", "quote_scan", "float_fastfloat", "ts_mult_wraps"]
 
 
+S_SEEDS = ["conflict_drop_shifts_indexes", "conflict_value_stored_reinterpreted", "valid_field_dropped_with_conflict",
+           "conflict_drops_line", "batch_conflict_rejects_other_lines", "schema_retyped_by_conflict", "overwrite_keeps_old_value",
+           "overwrite_replaces_row", "conflict_acknowledged", "tag_shadowed_by_field", "stale_endtime_conflict_drops_line"]
+
+
 def selftest(seed):
     """every mutation seed / as-implemented deviation put into the DESIGN automaton must make TLC report a counterexample"""
     missed = []
@@ -1104,5 +1641,10 @@ def selftest(seed):
         hit = r["violated"] or (r["error"] if r["error"] and "BatchOK" in r["error"] else None)
         print("seed %-28s -> %s" % (dv, hit or "NOT CAUGHT"))
         if not hit:
+            missed.append(dv)
+    for dv in S_SEEDS:
+        r = vlib.run_tlc("LineSchemaMC", "LineSchema.dev.%s.cfg" % dv, timeout=900, workers=4)
+        print("seed %-36s -> %s" % (dv, r["violated"] or "NOT CAUGHT"))
+        if not r["violated"]:
             missed.append(dv)
     return 1 if missed else 0
